@@ -291,6 +291,17 @@ func scenarios(tier string, seed int64) []Scn {
 		add(Scn{Budget: 10, HookRefuse: "first-k", HookK: 10, Losses: 2, Base: "idle"})
 		add(Scn{Budget: 1, HookRefuse: "alternating", Losses: 3, Base: "idle", UserID: true})
 		add(Scn{Budget: 2, HookRefuse: "alternating", Losses: 2, Base: "awaiting", NCalls: 1, RST: true})
+		// RedialInterval left unset (documented default 100 ms), small budgets; the server comes back by a
+		// logical trigger - after exactly k < n refused attempts of the round - or stays away
+		for i, n := range []int{2, 3, 5} {
+			add(Scn{Budget: n, IntervalUnset: true, Base: "idle", Refuse: n - 1, Mode: "reject", Hook: "handshake", UserID: i%2 == 0, RST: i == 1})
+			add(Scn{Budget: n, IntervalUnset: true, Base: "awaiting", NCalls: 1, Refuse: []int{1, 2, 3}[i], Mode: "down", Hook: hooks[i%2]})
+			add(Scn{Budget: n, IntervalUnset: true, Base: []string{"idle", "awaiting"}[i%2], NCalls: 2, Refuse: -1, Mode: []string{"down", "reject", "down"}[i], Writer: []string{"call", "push"}[i%2]})
+		}
+		add(Scn{Budget: 2, IntervalUnset: true, HookRefuse: "all", Base: "idle"})
+		add(Scn{Budget: 3, IntervalUnset: true, HookRefuse: "first-k", HookK: 2, Base: "idle", UserID: true})
+		add(Scn{Budget: 5, IntervalMs: 20, Base: "idle", Refuse: 4, Mode: "reject", Hook: "handshake"})
+		add(Scn{Budget: 3, IntervalMs: 50, Base: "awaiting", NCalls: 1, Refuse: -1, Mode: "down"})
 		// a DialTimeout is configured: it bounds one attempt, not the redial round
 		add(Scn{Budget: 3, Base: "awaiting", NCalls: 1, Refuse: 2, Mode: "reject", Hook: "handshake", DialTimeoutMs: 150, UserID: true})
 		add(Scn{Budget: 1, Base: "idle", Refuse: 1, Mode: "down", DialTimeoutMs: 100})
@@ -416,6 +427,18 @@ func scenarios(tier string, seed int64) []Scn {
 			}
 			addb(Scn{Budget: n, HookRefuse: "alternating", Losses: 3, Base: bs, NCalls: 1, UserID: true})
 		}
+	}
+	// RedialInterval unset (default 100 ms) or set to 20 / 50 ms: small budgets, server back after k < n refused attempts or never
+	for _, n := range []int{2, 3, 5} {
+		for mi, md := range [][2]string{{"reject", "handshake"}, {"down", "plain"}, {"down", "handshake"}} {
+			for k := 1; k < n; k += 2 {
+				addb(Scn{Budget: n, IntervalUnset: true, Base: []string{"idle", "awaiting"}[(k+mi)%2], NCalls: 1, Refuse: k, Mode: md[0], Hook: md[1], UserID: k%2 == 1})
+			}
+			addb(Scn{Budget: n, IntervalUnset: true, Base: "idle", Refuse: -1, Mode: md[0], Hook: md[1], Writer: []string{"call", "push"}[mi%2]})
+			addb(Scn{Budget: n, IntervalMs: []int{20, 50}[mi%2], Base: "awaiting", NCalls: 2, Refuse: n - 1, Mode: md[0], Hook: md[1]})
+		}
+		addb(Scn{Budget: n, IntervalUnset: true, HookRefuse: "all", Base: "idle"})
+		addb(Scn{Budget: n, IntervalUnset: true, HookRefuse: "alternating", Losses: 2, Base: "awaiting", NCalls: 1})
 	}
 	// a DialTimeout is configured (bounds one attempt, not the round): ordinary outages, and outages that
 	// outlast it while using part of the budget
